@@ -259,6 +259,8 @@ impl<'a, 'b> Sem<'a, 'b> {
                 ("b", v_str("o1-b")),
                 ("p", v_obj(vec![("q", oq)])),
                 ("m", v_fn("o1.m", v_str("o1-m-result"))),
+                // a slots object reached through a member expression (`v-slots={o1.sl}`)
+                ("sl", v_obj(vec![("viaMember", v_fn("o1.sl.viaMember", v_str("o1-sl-result")))])),
             ]),
         ));
         bound.push((
@@ -804,7 +806,11 @@ impl<'a, 'b> Sem<'a, 'b> {
                         continue;
                     }
                     has_vslots = true;
-                    let e = if self.c.bool() {
+                    let e = if self.c.chance(1, 4) {
+                        // any expression may supply the slots: it is spread beside `default`
+                        self.label("v-slots-value=call-or-conditional");
+                        Ex::src(self.c.choose(&["((v) => v)(sl1)", "(b1 ? sl1 : sl1)", "o1.sl"]), Cat::Other)
+                    } else if self.c.bool() {
                         Ex::src("sl1", Cat::IdentBound)
                     } else {
                         Ex::src(
